@@ -522,7 +522,8 @@ pub fn check_built_index<D: Distance>(
     let metric = spec_metric;
     let dump = raw_dump(rtxn, raw).map_err(Fail::Infra)?;
     let need_dump = cfg.structure || cfg.margins || cfg.tree_opts || cfg.format_roundtrip;
-    let idx = if need_dump { Some(decode_for(cfg, &dump, isp.index, metric)?) } else { None };
+    // without a structural oracle the decoded dump only feeds the class counters of the evidence
+    let idx = if need_dump { Some(decode_for(cfg, &dump, isp.index, metric)?) } else { decode_index(&dump, isp.index, metric, false).ok() };
     let expected: BTreeSet<u32> = m.items.keys().copied().collect();
     let mut fstats = None;
     if cfg.structure {
